@@ -280,6 +280,33 @@ def measure(res, cfgs, masses, s0, refs, T, tag, dirs, accbound=5e-4, setup=None
 
 
 GSCALE_TOL = 0.0
+def corrector_relation(res, masses, s0, refs, T, combos, orders):
+    """a symplectic corrector removes error terms: at the same step size the corrected run may not be worse than the uncorrected one"""
+    nb = len(masses)
+    ref = [refs[1][6 * i + k] for i in range(nb) for k in range(3)]
+
+    def err(coord, kernel, corr, c2):
+        sim = rebound.Simulation()
+        for i, m in enumerate(masses):
+            sim.add(m=m, x=s0[6 * i], y=s0[6 * i + 1], z=s0[6 * i + 2], vx=s0[6 * i + 3], vy=s0[6 * i + 4], vz=s0[6 * i + 5])
+        set_opts(sim, "whfast", {"coordinates": coord, "kernel": kernel, "corrector": corr, "corrector2": c2, "safe_mode": 0})
+        sim.dt = T / 64
+        sim.steps(64)
+        sim.synchronize()
+        got = [c for p in sim.particles for c in (p.x, p.y, p.z)]
+        return max(abs(a - b) for a, b in zip(got, ref))
+    for coord, kernel in combos:
+        base = err(coord, kernel, 0, 0)
+        for corr in orders:
+            for c2 in ((0, 1) if coord == "jacobi" else (0,)):
+                e = err(coord, kernel, corr, c2)
+                res["order_runs"] += 1
+                res["observed"]["corrector %s/%s order %d%s vs none" % (coord, kernel, corr, "+c2" if c2 else "")] = [e, base]
+                if not e <= 0.1 * base + 1e-12:          # (observed: 0.011 at worst, barycentric; 2e-4 and below in Jacobi coordinates)
+                    viol(res, "corrector-hurts", integrator="whfast", opts={"coordinates": coord, "kernel": kernel, "corrector": corr, "corrector2": c2}, direction=1,
+                         error_with_corrector=e, error_without=base)
+
+
 N0 = {2: 16, 4: 16, 6: 8, 8: 2}
 
 
@@ -348,9 +375,16 @@ def order_runs(res, adv, tier, valid=(), seed=0):
         measure(res, cfgs, masses, s0, refs, T, "", (1,))
         measure(res, [c for c in cfgs if c[0] in ("whfast", "eos")], masses, s0, refs, T, "", (-1,))
         measure(res, cfgs[::2], masses, s0, refs, T, "moving frame ", (1,), frame=FRAME)
+
+        def tp1q(sim):
+            sim.N_active = 2
+            sim.testparticle_type = 1
+        measure(res, [c for c in cfgs if c[0] in ("eos", "mercurius", "trace") or (c[0] == "whfast" and "kernel" not in c[1])], masses, s0, refs, T, "testparticle type 1 ", (1,), setup=tp1q)
+        corrector_relation(res, masses, s0, refs, T, (("jacobi", "default"), ("barycentric", "default"), ("jacobi", "lazy")), (11, 17))
     else:
         measure(res, cfgs, masses, s0, refs, T, "", (1, -1))
         lat = lattice_cfgs(adv, valid)
+        corrector_relation(res, masses, s0, refs, T, [(v["coord"], v["kernel"]) for v in valid if v["valid"] and v["corr"] == 3], (3, 5, 7, 11, 17))
         measure(res, cfgs, masses, s0, refs, T, "moving frame ", (1, -1), frame=FRAME)
         measure(res, lat[1::2], masses, s0, refs, T, "moving frame lattice ", (1,), frame=FRAME)
         measure(res, lat, masses, s0, refs, T, "lattice ", (1,))
